@@ -22,6 +22,7 @@
 //   dump: stash_len last_poll remote_min pending deadline_ms deny stratum reach tries ver_code
 use super::super::*;
 use crate::packet::{AesSivCmac256, ExtensionField};
+use crate::time_types::PollIntervalLimits;
 use std::fmt::Write as _;
 
 pub(super) struct Ctl {
@@ -72,6 +73,8 @@ struct Abs {
     uu: Vec<i64>,
     cu: Vec<(i64, i64)>,
     bad_auth: bool,
+    du: Vec<bool>,
+    da: Vec<bool>,
 }
 
 fn ver_of(code: i64) -> ProtocolVersion {
@@ -179,8 +182,10 @@ impl World {
             cookies.push(if l == 0 { (0, 0) } else { (t, l) });
             (0x0204, cookie_bytes(t, l))
         } else if it == "d" {
+            uids.push(-100);
             (0xF5FF, crate::packet::v5::DRAFT_VERSION.as_bytes().to_vec())
         } else if it == "dx" {
+            uids.push(-101);
             (0xF5FF, b"draft-ietf-ntp-ntpv5-00".to_vec())
         } else {
             panic!("BADSPEC item {}", it)
@@ -337,7 +342,9 @@ fn build_packet(w: &mut World, f: &[&str], nts_source: bool) -> (Vec<u8>, Abs) {
                     a.ua.extend(uu);
                     let cu = std::mem::take(&mut a.cu);
                     a.ca.extend(cu);
-                    a.ue.extend(e_uids);
+                    a.ue.extend(e_uids.into_iter().filter(|x| *x > -100));
+                    let du = std::mem::take(&mut a.du);
+                    a.da.extend(du);
                     a.ce.extend(e_cookies);
                 } else {
                     a.bad_auth = true;
@@ -351,7 +358,13 @@ fn build_packet(w: &mut World, f: &[&str], nts_source: bool) -> (Vec<u8>, Abs) {
                     panic!("BADSPEC v4 cookie length {}", val.len());
                 }
                 put_ef(&mut p, v5, ty, &val);
-                a.uu.extend(uids);
+                for u in uids {
+                    if u <= -100 {
+                        a.du.push(u == -100);
+                    } else {
+                        a.uu.push(u);
+                    }
+                }
                 a.cu.extend(cookies);
             }
             if !v5 && idx + 1 == nitems && p.len() - before <= 24 {
@@ -362,6 +375,14 @@ fn build_packet(w: &mut World, f: &[&str], nts_source: bool) -> (Vec<u8>, Abs) {
     if flags & 8 != 0 {
         p[3] ^= 0x01;
         if a.sealed {
+            a.bad_auth = true;
+        }
+    }
+    if v5 {
+        // the v5 decoder accepts only request/response modes and needs the right draft identification
+        // as the first such field of the untrusted (then authenticated) list
+        let first = a.du.first().or(a.da.first()).copied();
+        if (mode != 3 && mode != 4) || first != Some(true) {
             a.bad_auth = true;
         }
     }
@@ -444,10 +465,10 @@ fn dump(s: &NtpSource<Ctl>, start: tokio::time::Instant) -> String {
 }
 
 // what the real decoder says about the datagram, compared with the abstraction built from the specification
-fn cross_check(s: &NtpSource<Ctl>, bytes: &[u8], a: &Abs, w: &World) -> (bool, bool) {
+fn cross_check(s: &NtpSource<Ctl>, bytes: &[u8], a: &Abs, w: &World) -> (bool, u32) {
     let cipher = s.nts.as_ref().map(|nts| nts.s2c.as_ref());
     match NtpPacket::deserialize(bytes, &cipher) {
-        Err(_) => (false, true),
+        Err(_) => (false, 0),
         Ok((pk, _)) => {
             let uid_id = |u: &[u8]| -> i64 {
                 for (i, r) in w.reqs.iter().enumerate() {
@@ -488,21 +509,27 @@ fn cross_check(s: &NtpSource<Ctl>, bytes: &[u8], a: &Abs, w: &World) -> (bool, b
                 NtpAssociationMode::Control => 6,
                 NtpAssociationMode::Private => 7,
             };
-            let ok = pk.version().as_u8() as i64 == a.ver
-                && mode == a.mode
-                && pk.stratum() as i64 == a.stratum
-                && pk.poll().as_log() as i64 == a.poll
-                && (pk.is_upgrade() as i64) == a.upg
-                && ua == a.ua
-                && ca == a.ca
-                && uu == a.uu
-                && cu == a.cu
-                && ce == a.ce
-                && (a.ver == 5 || !pk.is_kiss() || (pk.is_kiss_deny() == (a.kiss == 1)
+            let mut bad = 0u32;
+            let mut chk = |i: u32, c: bool| {
+                if !c {
+                    bad |= 1 << i;
+                }
+            };
+            chk(0, pk.version().as_u8() as i64 == a.ver);
+            chk(1, mode == a.mode);
+            chk(2, pk.stratum() as i64 == a.stratum);
+            chk(3, pk.poll().as_log() as i64 == a.poll);
+            chk(4, (pk.is_upgrade() as i64) == a.upg);
+            chk(5, ua == a.ua);
+            chk(6, ca == a.ca);
+            chk(7, uu == a.uu);
+            chk(8, cu == a.cu);
+            chk(9, ce == a.ce);
+            chk(10, a.ver == 5 || !pk.is_kiss() || (pk.is_kiss_deny() == (a.kiss == 1)
                     && pk.is_kiss_rstr() == (a.kiss == 3)
-                    && pk.is_kiss_ntsn() == (a.kiss == 4)))
-                && (a.ver != 5 || !pk.is_kiss() || pk.is_kiss_ntsn() == (a.authnak == 1));
-            (true, ok)
+                    && pk.is_kiss_ntsn() == (a.kiss == 4)));
+            chk(11, a.ver != 5 || !pk.is_kiss() || pk.is_kiss_ntsn() == (a.authnak == 1));
+            (true, bad)
         }
     }
 }
@@ -629,8 +656,9 @@ pub(super) fn run_history(t: &[&str]) -> String {
                     list_c(&a.ca),
                     list_i(&a.uu),
                     list_c(&a.cu),
-                    // 1: the decoder's result agrees with the specification-level abstraction
-                    (chk && decoded != a.bad_auth) as i64
+                    // 0: the decoder's result agrees with the specification-level abstraction; else a mask of
+                    // the disagreeing components (bit 12: decodes / is rejected against expectation)
+                    chk | (((decoded == a.bad_auth) as u32) << 12)
                 )
                 .unwrap();
                 match r {
